@@ -655,6 +655,8 @@ class E2ESuite(Suite):
                                 except Hang:
                                     res.append([9])       # no answer within 20 s: the machine lost sync with its shell
                                     break
+                                except Exception as e:  # noqa  (anything else the call raised is an observation)
+                                    res.append([8, type(e).__name__])
                                 finally:
                                     signal.alarm(0)
                             signal.alarm(10)
